@@ -1,3 +1,4 @@
+from .common import pyvc_units
 LEVEL = "other"
 EXPLANATION = ('Clause table. PROVED for all brightness in [0,1], purity in (1/2,1], indistinguishability in [0,1] (xlift symbolic, 14 symbolic paths covering the region, z3-nlsat + normal form): the real Source._single_photon_distribution / purity_to_prob give outcome weights >= 0 summing to one, photon-number statistics with g2 = 1 - purity for every brightness, indistinguishable : distinguishable = sqrt(I) : 1 - sqrt(I), two fresh labels per photon; perfect settings reduce to the ideal source; HOM visibility on a 50:50 beam splitter = indistinguishability for all I (both backends). BOUNDED, exact (xlift): on 3 circuits (lossless, lossy, photon-carrying herald), inputs of 1-2 photons (bunched, gaps), 6 exact parameter triples incl. I = 0 (classical particles), both backends: input statistics sum to one; output = mixture over per-photon emission outcomes of the convolution of the boson-sampling distributions of the mutually distinguishable groups (reference written from the statement); with a probability threshold the retained inputs are renormalised and the output stays normalised. NOT under contract: _full_distribution/_remap_distribution/group_empty_modes/annotated_state_pdist_calc individually (bounded end-to-end only).')
 ASSUMPTIONS = ["A1: exact reals", "mixture law: bounded to inputs of <=2 photons on 3-mode circuits (lossless, lossy, photon-carrying herald), 6 exact parameter triples, both backends"]
@@ -5,7 +6,7 @@ TRUSTED = ["xlift field + numpy proxy + exact permanent", "z3-nlsat 5.1", "state
 
 
 def units(tier):
-    u = [dict(kind="xlift", mechanism="xlift symbolic (B): complete over brightness, purity, indistinguishability", name="xlift:single-photon-table", module="vf.tasks.t_source", func="unit", args=dict(which="single")),
+    u = pyvc_units("C06", ["vf.contracts.c_emulator", "vf.contracts.c_state"]) + [dict(kind="xlift", mechanism="xlift symbolic (B): complete over brightness, purity, indistinguishability", name="xlift:single-photon-table", module="vf.tasks.t_source", func="unit", args=dict(which="single")),
          dict(kind="xlift", mechanism="xlift symbolic (B): indistinguishability symbolic", name="xlift:hom", module="vf.tasks.t_source", func="unit", args=dict(which="hom"))]
     for label in ("U3", "lossy3", "U3+h(1,0,2)"):
         for k in range(6):
